@@ -71,6 +71,7 @@ func c18(c *Ctx) {
 	for _, fn := range getters {
 		nitems += c18Getter(c, fn)
 	}
+	c18Serialised(c, getters)
 	c.Check(len(getters) >= 5, "identity-getter", "identity getters found", "-", fmt.Sprintf("%d getters, %d items", len(getters), nitems), fmt.Sprintf("expected the five identity getters (ssh, ftp, smtp, ldap, agent), found %d", len(getters)))
 	c.Check(nitems >= 8, "identity-getter", "identity items found", "-", "", fmt.Sprintf("expected at least 8 persisted identity items, found %d", nitems))
 	for _, want := range []string{"services/ssh", "services/ftp", "services/smtp", "services/ldap", "listener/agent"} {
